@@ -14,7 +14,7 @@ R.shape("CommandConfig", external=True)
 R.shape("EventDispatcher0", external=True)
 R.shape("Command", _config="ref CommandConfig", g_status=STATUS, g_handler_calls="int", g_interrupted="bool")
 R.shape("Args", external=True)
-R.shape("ResolvedCommand", _command="ref Command", _args="ref Args")
+R.shape("ResolvedCommand", _command="ref Command", _args="ref Args?")
 R.shape("ApplicationConfig", _catch_exceptions="bool", _terminate_after_run="bool", _io_factory="fn",
         g_solutions="none|ref object")
 R.shape("ConsoleApplication", _preliminary_io="ref IO", _config="ref ApplicationConfig")
@@ -23,7 +23,7 @@ R.shape("ExceptionTrace", external=True)
 # ---- Command._do_handle: the handler protocol (assumed here, decided by C04.B / _do_handle.once) ------------
 R.contract(
     M_CMD + ":Command._do_handle",
-    params={"args": "ref Args", "io": "ref IO"},
+    params={"args": "ref Args?", "io": "ref IO"},
     returns=STATUS,
     ensures=["self.g_status == result", "not self.g_interrupted"],
     raises={"Exception": "True", "KeyboardInterrupt": "True"},
@@ -37,7 +37,7 @@ R.contract(
 CLAMP = "min(max(int(self.g_status), 1), 255)"
 R.contract(
     M_CMD + ":Command.handle",
-    params={"args": "ref Args", "io": "ref IO"},
+    params={"args": "ref Args?", "io": "ref IO"},
     returns="int",
     ensures=[
         "0 <= result and result <= 255",
